@@ -1010,6 +1010,17 @@ spec fn ids_below(xs: Seq<TyID>, n: int) -> bool { forall|k: int| 0 <= k < xs.le
 spec fn tys_valid(tys: Seq<(&Span, Option<TyID>, Option<TyID>)>, n: int) -> bool {
     forall|k: int| 0 <= k < tys.len() ==> ((#[trigger] tys[k]).1 is Some ==> (tys[k].1->Some_0.0 as int) < n) && (tys[k].2 is Some ==> (tys[k].2->Some_0.0 as int) < n)
 }
+/// a statement that returns directly: a `ret`, or a loop / block whose statements do (returns nested inside
+/// expressions - an `if`, a `case` - are the business of the expression clauses)
+spec fn s_ret(s: Statement) -> bool decreases s {
+    match s {
+        Statement::Ret { .. } => true,
+        Statement::Loop { body, .. } => exists|i: int| 0 <= i < body.len() && s_ret(#[trigger] body[i]),
+        Statement::Block { statements, .. } => exists|i: int| 0 <= i < statements.len() && s_ret(#[trigger] statements[i]),
+        _ => false,
+    }
+}
+spec fn any_ret(ss: Seq<Statement>, upto: int) -> bool { exists|i: int| 0 <= i < upto && i < ss.len() && s_ret(#[trigger] ss[i]) }
 /// the returns of the first `upto` branches of an `if` are all in the class of `ret` (the type the `if`
 /// hands to the enclosing function as "what the code in here returns")
 spec fn rets_joined(ts: Seq<TypeNode>, tys: Seq<(&Span, Option<TyID>, Option<TyID>)>, upto: int, ret: Option<TyID>) -> bool {
@@ -3508,6 +3519,7 @@ impl TypeChecker {
             (*statement is Break || *statement is Continue) && !ctx.inside_loop ==> r is Err, //# C05 statement.break_outside_loop_rejected
             *statement is Assignment && ctx.inside_pure ==> r is Err, //# C04 statement.assignment_in_pure_rejected
             *statement is Assignment && !assignable_ok(old(self).variables@, statement->Assignment_target) ==> r is Err, //# C04 statement.assignment_to_constant_rejected
+            r is Ok && s_ret(*statement) ==> r->Ok_0 is Some, //# C02,C03 statement.a_statement_that_returns_reports_a_return_type
             r is Ok ==> s_brk(*statement, ctx.inside_loop), //# C05 statement.break_ok
             r is Ok ==> s_pur(old(self).variables@, *statement, ctx.inside_pure), //# C04 statement.pure_ok
             r is Err ==> r->Err_0.len() >= 1, //# C07 statement.an_error_result_is_never_an_empty_list
@@ -3529,6 +3541,7 @@ impl TypeChecker {
         ensures final(self).inv2(), final(self).grows(old(self)), //# C07 expression_block.spec.aux2
             r is Ok && r->Ok_0.0 is Some ==> final(self).valid(r->Ok_0.0->Some_0), //# C07 expression_block.spec.aux3
             r is Ok && r->Ok_0.1 is Some ==> final(self).valid(r->Ok_0.1->Some_0), //# C07 expression_block.spec.aux4
+            r is Ok && any_ret(statements@, statements@.len() as int) ==> r->Ok_0.0 is Some, //# C02,C03 expression_block.a_block_with_a_statement_that_returns_reports_a_return_type
             r is Ok ==> all_brk(statements@, ctx.inside_loop), //# C05 expression_block.break_ok
             r is Ok ==> all_pur(old(self).variables@, statements@, ctx.inside_pure), //# C04 expression_block.pure_ok
             r is Err ==> r->Err_0.len() >= 1, //# C07 expression_block.an_error_result_is_never_an_empty_list
@@ -3538,6 +3551,7 @@ impl TypeChecker {
                 self.inv2(), self.grows(old(self)), it.seq().len() == statements@.len(), //# - expression_block.loop1.aux1
                 forall|k: int| 0 <= k < statements@.len() ==> *(#[trigger] it.seq()[k]) == statements@[k], //# - expression_block.loop1.aux2
                 ret is Some ==> self.valid(ret->Some_0), //# C07 expression_block.loop1.aux3
+                any_ret(statements@, it.index@ as int) ==> ret is Some, //# C02,C03 expression_block.loop.no_return_of_the_statements_so_far_is_dropped
                 forall|i: int| 0 <= i < it.index@ ==> s_brk(#[trigger] statements@[i], ctx.inside_loop), //# C05 expression_block.loop.break_ok
                 forall|i: int| 0 <= i < it.index@ ==> s_pur(old(self).variables@, #[trigger] statements@[i], ctx.inside_pure), //# C04 expression_block.loop.pure_ok
 //@   endloop
